@@ -45,5 +45,7 @@ ShapeParams(t, cs, sel) == IF Len(cs) = 1 /\ sel % 4 = 3 /\ t % 2 = 1 THEN <<[na
 \* every third node lives in a module and carries a name written as RAW identifiers (r#mod::r#N1): the marker is part
 \* of the segment text and must survive every conversion
 ShapePath(t) == IF t % 3 = 1 THEN <<"r#mod", "r#" \o Nm(t)>> ELSE <<"m", Nm(t)>>
-ShapeBody(t, cs, sel) == [path |-> ShapePath(t), params |-> ShapeParams(t, cs, sel), def |-> ShapeDef(t, cs, sel), docs |-> <<"doc " \o Nm(t)>>]
+\* (leaf selector 5 is the bare `bool` primitive - no path, no docs: the very value retain uses as its placeholder)
+ShapeBody(t, cs, sel) == IF Len(cs) = 0 /\ sel % 6 = 5 THEN [path |-> <<>>, params |-> <<>>, def |-> [tag |-> "primitive", prim |-> "bool"], docs |-> <<>>] ELSE
+                         [path |-> ShapePath(t), params |-> ShapeParams(t, cs, sel), def |-> ShapeDef(t, cs, sel), docs |-> <<"doc " \o Nm(t)>>]
 =============================================================================
